@@ -15,8 +15,67 @@ import numpy as np
 from .. import core
 from ..core import rat
 
-RULE = ("sequences: all words over {0,1,2,3} up to the tier's length x endpoints, plus seeded random dyadic sequences; "
+RULE = ("sequences: all words over {0,1,2,3} up to the tier's length x endpoints, plus seeded random dyadic sequences, plus "
+        "near-tie sequences (small-integer words whose points are moved by +-2^-k, k = 8..44, so that adjacent ranges differ by a "
+        "relative 1e-3..1e-13 without being equal; also the whole sequence scaled by 2^j, j = -80..80: tiny and huge magnitudes); "
         "non-trivial = yields at least one cycle; distinct by (endpoints, sequence)")
+
+
+def exact_in_binary64(seq):
+    """every value, and the sum / difference of any two values, is exact in binary64 (so the implementation's float arithmetic
+    is exact and the comparison with the model at Rat is strict)"""
+    vals = [Fraction(v) for v in seq]
+    if any(v.denominator & (v.denominator - 1) for v in vals):
+        return False
+    nz = [v for v in vals if v != 0]
+    if not nz:
+        return True
+    # unit = largest power of two of which every value is an integer multiple
+    unit = min(Fraction(v.numerator & -v.numerator, v.denominator) for v in (abs(v) for v in nz))
+    top = max(abs(v) for v in nz)
+    return 2 * top / unit < 2 ** 53 and Fraction(1, 2 ** 900) < unit and top < 2 ** 900
+
+
+def near_tie_cases(chk):
+    """Ranges that are nearly but not exactly equal (ASTM compares X < Y exactly), at unit, tiny and huge magnitudes."""
+    rng = chk.rng
+    ks = [8, 16, 20, 24, 27, 30, 31, 34, 40, 44]
+    # deterministic corner block: the three-point decision X vs Y with X = Y -+ 2^-k, Y holding / not holding the start point
+    for k in (20, 31, 44) if chk.quick else ks:
+        d = Fraction(1, 2 ** k)
+        for sgn in (1, -1):
+            for base in ([0, 1, d, 10], [0, 1, -d, 10], [0, 1, 0, 1 + d], [0, 1, 0, 1 - d],
+                         [3, -2, 1, -2 + d, 4, -5], [3, -2, 1, -2 - d, 4, -5], [0, 2, 1, 2 - d, 1, 3],
+                         [0, 2, 1, 2 + d, 1 - d, 3], [5, 0, 1, d, 1 - d, 2 * d, 6], [0, 1 + d, 0, 1, 0, 1 - d, 0]):
+                for ep in (False, True):
+                    yield [sgn * Fraction(v) for v in base], ep
+    n = 2500 if chk.quick else 30000
+    for _ in range(n):
+        ln = rng.choice([3, 4, 4, 5, 5, 6, 7, 9, 13, 21])
+        k = rng.choice(ks)
+        d = Fraction(1, 2 ** k)
+        amp = rng.choice([1, 1, 2, 3])
+        kind = rng.random()
+        if kind < 0.6:
+            base = [rng.randint(-amp, amp) for _ in range(ln)]                 # many exact ties before the perturbation
+        elif kind < 0.85:
+            base = [(-1) ** i * rng.randint(0, amp) for i in range(ln)]        # alternating: every point is a turning point
+        else:
+            a = rng.randint(1, 3)                                             # repeated equal ranges: a chain of ties
+            base = [a * (i % 2) + rng.choice([0, 0, 0, 1]) for i in range(ln)]
+        seq = [Fraction(b) + rng.choice([-1, 0, 0, 1, 2]) * d for b in base]
+        r = rng.random()
+        if r < 0.25:
+            sc = Fraction(2) ** rng.randint(-80, -20)                          # tiny magnitudes (absolute tolerances)
+            seq = [v * sc for v in seq]
+        elif r < 0.4:
+            sc = Fraction(2) ** rng.randint(10, 80)                            # huge magnitudes
+            seq = [v * sc for v in seq]
+        elif r < 0.5:
+            off = rng.choice([-64, 17, 100])                                   # non-zero mean level
+            seq = [v + off for v in seq]
+        if exact_in_binary64(seq):
+            yield seq, rng.random() < 0.5
 
 
 def impl_all(seq, ep):
@@ -167,6 +226,7 @@ def gen_cases(chk):
             off = rng.choice([2 ** 31, -2 ** 35, 2 ** 40 + 3])     # large offset, still exact in binary64
             seq = [v + off for v in seq]
         yield seq, rng.random() < 0.5
+    yield from near_tie_cases(chk)
     # degenerate lengths: the error branch
     yield [1], False
     yield [], True
